@@ -16,3 +16,12 @@ template frg::unique_lock<wit::Mutex> frg::guard<wit::Mutex>(frg::dont_lock_t, w
 template class frg::unique_lock<frg::ticket_spinlock>;
 template class frg::unique_lock<frg::simple_spinlock>;
 template struct frg::lock_guard<frg::ticket_spinlock>;
+
+// the hidden-friend swaps, used directly (they must be analysed whether or not a member happens to call them)
+namespace wit {
+inline void use_lock_swaps(frg::unique_lock<Mutex> &a, frg::unique_lock<Mutex> &b,
+		frg::shared_lock<Mutex> &c, frg::shared_lock<Mutex> &d) {
+	swap(a, b);
+	swap(c, d);
+}
+}
